@@ -33,11 +33,7 @@ def is_untyped_int(U, l):
 
 
 def eq_values(csv, mode):
-    if csv and mode == "float":
-        def eq(a, b):
-            a, b = float(a), float(b)
-            return a == b or abs(a - b) <= 4 * np.spacing(max(abs(a), abs(b)))
-        return eq
+    # CSV text is read back with pandas' round-trip float parser, so even arbitrary floats are exact
     return model.eq_exact
 
 
@@ -315,7 +311,7 @@ Prop(
     "dims). export: every to_df layout parsed back with plain loops (one row per label tuple, sparse = exactly the non-zero "
     "entries). roundtrip: to_df(index x dim_to_columns by name or letter x sparse) then row permutation, index levels moved to "
     "columns, letters as headers, renamed value column, CSV text, target dims in any order -> from_df must return the identical "
-    "array (exact; 4 ulp for arbitrary floats through CSV). rendered: frames rendered from records with dims split between index "
+    "array (exact; CSV text is read back with the round-trip float parser). rendered: frames rendered from records with dims split between index "
     "and columns, column permutations, headers by name / letter / only through items (inferred columns before the value column), "
     "single-item dims left out, wide over any dim incl. untyped int, values coinciding with a named int dimension's items. weak: "
     "every faulty frame of C12's generator - each non-zero imported entry must come from the unique row with its labels. "
